@@ -36,6 +36,8 @@ def guarded(fn, secs=10):
         return "ok", fn()
     except claripy.errors.ClaripyZeroDivisionError:
         return "ZeroDiv", None
+    except claripy.errors.ClaripyError as ex:
+        return "ClaripyError:" + type(ex).__name__, None
     except _Timeout:
         return "Timeout", None
     except MemoryError:
@@ -133,7 +135,7 @@ def op_event(t, how, job, rng):
     oc, ast = guarded(lambda: TM.build(t, how))
     fv = TM.free_vars(t)
     ev = {"k": "op", "w": t, "how": how, "out": oc, "r": DUMMY, "vars": [[n, w] for n, w in sorted(fv.items())],
-          "asgs": [], "z3": [], "nodes": []}
+          "asgs": [], "z3": [], "nodes": [], "cerr": oc.startswith("ClaripyError")}
     def set_asgs():
         vv = {n: w for n, w in ev["vars"]}
         if sum(vv.values()) + sum(1 for w in vv.values() if w == 0) > job.get("enum_bits", 10):
@@ -161,6 +163,69 @@ def op_event(t, how, job, rng):
     return ev
 
 
+class _TestAnno:
+    pass
+
+
+def metaops_events(job, rng, out):
+    """C05: metadata of nodes produced by annotation changes, substitution, Z3 round trips, canonicalisation"""
+    import claripy
+
+    class EA(claripy.Annotation):
+        eliminatable, relocatable = True, False
+
+        def __init__(self, k):
+            self.k = k
+
+        def __hash__(self):
+            return hash(("EA", self.k))
+
+        def __eq__(self, o):
+            return type(o) is type(self) and o.k == self.k
+
+    class RA(EA):
+        eliminatable, relocatable = False, True
+
+    class UA(EA):
+        eliminatable, relocatable = False, False
+
+    for i in range(job["n"]):
+        W = rng.choice([1, 2, 3, 4, 8, 16, 32, 64])
+        t = G.rand_term(rng, W, rng.randint(2, 4), want_bool=rng.random() < 0.3)
+        oc, a = guarded(lambda: TM.build(t, "std"))
+        if oc != "ok":
+            continue
+        results = []
+
+        def attempt(fn):
+            o, r = guarded(fn)
+            if o == "ok" and isinstance(r, claripy.ast.Base):
+                results.append(r)
+
+        an = rng.choice([EA, RA, UA])(rng.randrange(3))
+        attempt(lambda: a.annotate(an))
+        attempt(lambda: a.annotate(an).remove_annotation(an))
+        attempt(lambda: a.annotate(an).clear_annotations())
+        attempt(lambda: a.annotate(an) + 1 if isinstance(a, claripy.ast.BV) else claripy.Not(a.annotate(an)))
+        leaves = [l for l in a.leaf_asts() if l.op == "BVS"]
+        if leaves:
+            l = rng.choice(leaves)
+            attempt(lambda: a.replace(l, claripy.BVV(rng.getrandbits(l.length), l.length)))
+            attempt(lambda: a.replace(l, claripy.BVS("q", l.length, explicit_name=True) + 1))
+            attempt(lambda: a.replace(l, l.annotate(an)))
+        attempt(lambda: claripy.simplify(a))
+        attempt(lambda: claripy.backends.z3._abstract(claripy.backends.z3.convert(a)))
+        attempt(lambda: a.canonicalize()[2])
+        attempt(lambda: claripy.excavate_ite(a))
+        attempt(lambda: claripy.burrow_ite(a))
+        for r in results:
+            tr = TM.ser(r)
+            ev = {"k": "op", "w": tr, "how": "metaop", "out": "ok", "r": tr, "vars": [], "asgs": [], "z3": [],
+                  "nodes": node_meta(r), "cerr": False, "gi": i}
+            if ev["nodes"]:
+                out.write(ev, nontrivial_key=[tr], outcome="ok", sample={"result": tr})
+
+
 def gen_terms(job, rng):
     g = job["gen"]
     if g == "exh":
@@ -176,6 +241,8 @@ def gen_terms(job, rng):
         for _ in range(job["n"]):
             W = rng.choice(job.get("widths", [1, 2, 3, 4, 5, 7, 8, 9, 16, 31, 32, 33, 63, 64, 65, 128]))
             yield G.rand_term(rng, W, rng.randint(2, job.get("depth", 5)), want_bool=rng.random() < 0.35)
+    elif g == "boundary":
+        yield from G.boundary_terms(rng, job.get("n", 2000))
     elif g == "list":
         yield from job["terms"]
 
@@ -191,6 +258,10 @@ def main():
     off = job.get("seed", 0) % stride_sample if stride_sample > 1 else 0
     n = 0
     out = ShardWriter(sys.argv[2], job.get("shard", 5000))
+    if job["gen"] == "metaops":
+        metaops_events(job, rng, out)
+        out.close()
+        return
     for i, t in enumerate(gen_terms(job, rng)):
         if stride_sample > 1 and i % stride_sample != off:
             continue
